@@ -344,6 +344,10 @@ func checkC09(c *Check) {
 	}
 
 	storesReportFailedRemoval(c, "C09.R5")
+	// the logout is recognised by the matched filter's own handler (its logout path, end-session URI and cookie name)
+	if pc := processInvoke(P, R); c.Anchor("C09.R1", "Handler.Process invocation in Check", pc != nil) {
+		handlerBuiltPerCheck(c, "C09.R1", R.CheckEntry, pc)
+	}
 	// the session to remove is the one the request presents, however its Cookie header is spaced (C05.R2's decoder rule)
 	cookieDecoderComplete(c, "C09.R2")
 	// a logged-out (deleted) Redis session is noticed by every later operation of a check that was in flight: each
